@@ -192,7 +192,8 @@ func checkC11(raw json.RawMessage) (ev.Result, error) {
 		// order and thread of the two system calls at the boundary
 		var calls []kchild.SysCall
 		for _, s := range rr.Strace {
-			if s.Name == "seccomp" || (s.Name == "prctl" && len(s.Args) > 0 && strings.Contains(s.Args[0], "PR_SET_NO_NEW_PRIVS")) {
+			// only installations count (a support probe in strict mode is not one)
+			if (s.Name == "seccomp" && len(s.Args) > 0 && s.Args[0] == "0x1") || (s.Name == "prctl" && len(s.Args) > 0 && strings.Contains(s.Args[0], "PR_SET_NO_NEW_PRIVS")) {
 				calls = append(calls, s)
 			}
 		}
